@@ -259,6 +259,25 @@ def _law_aliased(job, ctx):
                     continue
                 if got != want:
                     ctx.violation("C18|law-mapclass|result|" + conv, "with %s given as ordered maps, combine_trees(%s, %s) = %s, expected %s" % (conv, base, child, got, want), case)
+    # keys that are not text (what YAML and pickle documents can carry): numbers, None, tuples - on either side
+    keyed = [({"a": {1: "x", 2: "y"}, "b": 1}, {"a": {2: "z", 3: "w"}}), ({"a": {"k": 1}}, {"a": {None: 2, (1, 2): 3}, 7: 8}), ({1: {2: {3: 4}}}, {1: {2: {5: 6}}}),
+             ({None: {"k": 1}, "b": 2}, {None: {"j": 2}}), ({"a": 1}, {2.5: {"k": 1}, True: 3})]
+    for ki, (base, child) in enumerate(keyed):
+        ident = ["keys", ki]
+        if only is not None and only != ident:
+            continue
+        b0, c0 = copy.deepcopy(base), copy.deepcopy(child)
+        want = ref_merge(b0, c0)
+        ctx.transitions += 1
+        ctx.case(("keys", ki), "law-keys", True)
+        case = {"kind": "law-aliased", "jobparams_full": {k: v for k, v in job.items() if k not in ("single", "only")}, "only": ident, "job": job["name"]}
+        try:
+            got = cc.IncludeField().combine_trees(base, child)
+        except Exception as exc:  # noqa
+            ctx.violation("C18|law-keys|raises", "combine_trees(%s, %s) raised %r" % (b0, c0, exc), case)
+            continue
+        if got != want or base != b0 or child != c0:
+            ctx.violation("C18|law-keys|result", "combine_trees(%s, %s) = %s, expected %s (inputs afterwards: %s, %s)" % (b0, c0, got, want, base, child), case)
     ctx.sample({"aliased_bases": len(_aliased_bases()), "children": len(children)})
 
 
@@ -309,11 +328,18 @@ def _write(fmt, path, tree, opts=None):
     return data
 
 
-GROWN = {"grown-nested-item": "nested", "grown-root-item": "root", "grown-nested-attr": "nested"}
+GROWN = {"grown-nested-item": "nested", "grown-root-item": "root", "grown-nested-attr": "nested",
+         "shared-field-object": "both"}      # one IncludeField object mounted in two scopes under different keys
 
 
 def _schema(variant, startdir, grown=None):
     import cincoconfig as cc
+    if grown == "shared-field-object":
+        s = _schema("none", startdir)
+        inc = cc.IncludeField(**({"startdir": startdir} if startdir else {}))
+        s.include = inc
+        s.sub.inc = inc
+        return s
     if grown:
         # the include field joins the schema only after the schema has served a first document load
         s = _schema("none", startdir)
@@ -540,6 +566,12 @@ def _equiv(job, ctx):
                     cfg.sub.ul.append("appended-after-load")
             except Exception:  # noqa
                 pass
+            if grown == "shared-field-object":
+                # one field object knows one key: under which name the two scopes keep the include path itself is not judged,
+                # what the included files contribute is
+                def drop(t):
+                    return {k: (drop(v) if isinstance(v, dict) else v) for k, v in t.items() if k not in ("include", "inc")}
+                a, b = drop(a), drop(b)
             if V.canon(_norm_paths(a, incdir)) != V.canon(_norm_paths(b, incdir)):
                 ctx.violation(fp + "differs", "main %s + included %s loaded as %s; the merged tree %s loads as %s" % (main, files, a, want, b), case,
                               size=len(str(main)) + len(str(files)))
